@@ -76,8 +76,24 @@ fn vts_wire(v: Option<&Value>) -> Value {
 	Value::Array(v.and_then(Value::as_array).map(|a| a.iter().map(vt_wire).collect()).unwrap_or_default())
 }
 
+/// `Read::read` may return short counts: every third class reaches the reader through a stream that hands out at most
+/// 1 / 5 / 64 bytes per call (chosen by the length of the file), what is read may not depend on it.
+pub struct Frag<'a> { inner: Cursor<&'a [u8]>, k: usize }
+impl<'a> Frag<'a> {
+	pub fn new(bytes: &'a [u8]) -> Frag<'a> { Frag { inner: Cursor::new(bytes), k: [0, 1, 0, 5, 0, 64][bytes.len() % 6] } }
+}
+impl std::io::Read for Frag<'_> {
+	fn read(&mut self, buf: &mut [u8]) -> std::io::Result<usize> {
+		let n = if self.k == 0 { buf.len() } else { buf.len().min(self.k) };
+		self.inner.read(&mut buf[..n])
+	}
+}
+impl std::io::Seek for Frag<'_> {
+	fn seek(&mut self, pos: std::io::SeekFrom) -> std::io::Result<u64> { self.inner.seek(pos) }
+}
+
 fn read_duke(bytes: &[u8]) -> std::result::Result<std::result::Result<duke::tree::class::ClassFile, String>, String> {
-	match catch_unwind(AssertUnwindSafe(|| duke::read_class(&mut Cursor::new(bytes)))) {
+	match catch_unwind(AssertUnwindSafe(|| duke::read_class(&mut Frag::new(bytes)))) {
 		Ok(Ok(c)) => Ok(Ok(c)),
 		Ok(Err(e)) => Ok(Err(format!("{e:#}"))),
 		Err(p) => Err(p.downcast_ref::<String>().cloned().or_else(|| p.downcast_ref::<&str>().map(|s| s.to_string())).unwrap_or_default()),
@@ -122,7 +138,7 @@ fn exec_read(v: &Value) -> Result<Value> {
 			if let Some(name) = utf8_at(&parsed.spans, &bytes, be(&bytes, s) as usize) { order.push(Value::String(name)); }
 		}
 	}
-	let res = match duke::read_class(&mut Cursor::new(&bytes[..])) {
+	let res = match duke::read_class(&mut Frag::new(&bytes[..])) {
 		Ok(tree) => json!({"ok": true, "v": project(&tree)}),
 		Err(e) => json!({"ok": false, "v": [], "err": normalise_message(&format!("{e:#}"))}),
 	};
